@@ -1,125 +1,24 @@
 ------------------------------- MODULE SigDb -------------------------------
-(* Abstract model of efi/signature: SignatureDatabase / SignatureList editing (property C09,  *)
-(* and the source of "databases reachable through the library's own operations" for C07).     *)
-(*                                                                                            *)
-(* A database is a sequence of EFI_SIGNATURE_LISTs.  Sizes are real integers (28-byte list    *)
-(* header, 16-byte owner GUID); signature data is abstracted to an identity + a length.       *)
-(* Data values are records [id, len, enc, der, derlen, types]: enc = "pem" marks the PEM       *)
-(* armouring of the DER value `der` (length derlen); `types` = signature types under which    *)
-(* the harness uses the value (type-disjoint universes, see DESIGN C09/A).                     *)
-EXTENDS Integers, Sequences, FiniteSets, TLC, SequencesExt
-
-CONSTANTS Owners,        \* owner GUID identities
-          Data,          \* set of data-value records
-          ValidSchemes,  \* signature types the library knows (ValidEFISignatureSchemes)
-          Decodable      \* subset the decoder implements (x509, sha256)
-
-VARIABLES db,    \* Seq of lists [type, listsize, hdrsize, size, entries : Seq([owner, data, len])]
-          sl,    \* scratch list being built with list-level operations, or NoList
-          last   \* last operation and its result (output only)
-vars == <<db, sl, last>>
-
-ListHdr == 28
-GuidLen == 16
-
-NormId(t, d)  == IF t = "x509" /\ d.enc = "pem" THEN d.der    ELSE d.id
-NormLen(t, d) == IF t = "x509" /\ d.enc = "pem" THEN d.derlen ELSE d.len
+(* SigDbCore (state machine of efi/signature database editing) + the flat view of a database as one ordered   *)
+(* collection of (type, owner, data) entries and the C09 statements phrased over it.                          *)
+EXTENDS SigDbCore, TLC, SequencesExt
 
 FlatList(l) == [i \in 1..Len(l.entries) |->
                   [type |-> l.type, owner |-> l.entries[i].owner, data |-> l.entries[i].data]]
 RECURSIVE Flat(_)
 Flat(d) == IF d = <<>> THEN <<>> ELSE FlatList(Head(d)) \o Flat(Tail(d))
 
-InFlat(d, t, o, id) == \E i \in 1..Len(Flat(d)) : Flat(d)[i] = [type |-> t, owner |-> o, data |-> id]
-Without(s, p) == SubSeq(s, 1, p-1) \o SubSeq(s, p+1, Len(s))
+(* InFlat of SigDbCore is membership in Flat *)
+InFlatIsMembership(d, t, o, id) == InFlat(d, t, o, id) <=> \E i \in 1..Len(Flat(d)) : Flat(d)[i] = [type |-> t, owner |-> o, data |-> id]
 
-(* EFI_SIGNATURE_LIST equations (UEFI 32.4.1) *)
-ListEq(l) == /\ l.listsize = ListHdr + l.hdrsize + Len(l.entries) * l.size
-             /\ \A i \in 1..Len(l.entries) : l.entries[i].len + GuidLen = l.size
-             /\ (l.type = "sha256" /\ Len(l.entries) > 0 => l.size = 48)
-NoDupList(l) == \A i, j \in 1..Len(l.entries) :
-                   i # j => (l.entries[i].owner # l.entries[j].owner \/ l.entries[i].data # l.entries[j].data)
-ListWF(l) == ListEq(l) /\ NoDupList(l)
-WF(d) == \A i \in 1..Len(d) : ListWF(d[i])
-NoEmptyList(d) == \A i \in 1..Len(d) : Len(d[i].entries) > 0
-
-NoList == [type |-> "none", listsize |-> 0, hdrsize |-> 0, size |-> 0, entries |-> <<>>]
-Entry(o, id, n) == [owner |-> o, data |-> id, len |-> n]
-NewList(t) == [type |-> t, listsize |-> ListHdr, hdrsize |-> 0, size |-> 0, entries |-> <<>>]
-AddTo(l, o, id, n) == [l EXCEPT !.entries = Append(@, Entry(o, id, n)), !.size = n + GuidLen,
-                                !.listsize = @ + n + GuidLen]
-
-(* Reference placement: first list of the same type and entry size, else a new list at the end. *)
-Place(t, o, id, n) ==
-  LET idx == {i \in 1..Len(db) : db[i].type = t /\ db[i].size = n + GuidLen} IN
-  IF idx = {} THEN Append(db, AddTo(NewList(t), o, id, n))
-  ELSE LET i == CHOOSE k \in idx : \A m \in idx : k <= m IN [db EXCEPT ![i] = AddTo(@, o, id, n)]
-
-Rec(op, t, o, d, res) == [op |-> op, t |-> t, o |-> o, d |-> d, res |-> res]
-
-DoAppend(t, o, d) ==
-  LET id == NormId(t, d)  n == NormLen(t, d) IN
-  /\ UNCHANGED sl
-  /\ IF t \notin ValidSchemes THEN UNCHANGED db /\ last' = Rec("append", t, o, d.id, "noscheme")
-     ELSE IF t = "sha256" /\ n # 32 THEN UNCHANGED db /\ last' = Rec("append", t, o, d.id, "error")
-     ELSE IF InFlat(db, t, o, id) THEN UNCHANGED db /\ last' = Rec("append", t, o, d.id, "exists")
-     ELSE db' = Place(t, o, id, n) /\ last' = Rec("append", t, o, d.id, "ok")
-
-DropAt(l, k) == [l EXCEPT !.entries = Without(@, k), !.listsize = @ - l.size]
-Hits(t, o, id) == {<<i, k>> \in (1..Len(db)) \X (1..8) :
-                     /\ k <= Len(db[i].entries) /\ db[i].type = t
-                     /\ db[i].entries[k].owner = o /\ db[i].entries[k].data = id}
-DoRemove(t, o, d) ==
-  /\ UNCHANGED sl
-  /\ IF Hits(t, o, d.id) = {} THEN UNCHANGED db /\ last' = Rec("remove", t, o, d.id, "notfound")
-     ELSE LET h  == CHOOSE x \in Hits(t, o, d.id) : \A y \in Hits(t, o, d.id) : x[1] < y[1] \/ (x[1] = y[1] /\ x[2] <= y[2])
-              nl == DropAt(db[h[1]], h[2]) IN
-          /\ db' = IF Len(nl.entries) = 0 THEN Without(db, h[1]) ELSE [db EXCEPT ![h[1]] = nl]
-          /\ last' = Rec("remove", t, o, d.id, "ok")
-
-DoQuery(t, o, d) == /\ UNCHANGED <<db, sl>>
-                    /\ last' = Rec("query", t, o, d.id, IF InFlat(db, t, o, d.id) THEN "true" ELSE "false")
-
-(* list-level operations on a scratch list which is later handed to AppendList *)
-DoListNew(t) == /\ sl.type = "none" /\ sl' = NewList(t) /\ UNCHANGED db /\ last' = Rec("listnew", t, "-", "-", "ok")
-DoListAppend(o, d) ==
-  /\ sl.type # "none" /\ d.types \cap {sl.type} # {} /\ UNCHANGED db
-  /\ LET t == sl.type  id == NormId(sl.type, d)  n == NormLen(sl.type, d) IN
-     IF t = "sha256" /\ n # 32 THEN UNCHANGED sl /\ last' = Rec("listappend", t, o, d.id, "error")
-     ELSE IF \E i \in 1..Len(sl.entries) : sl.entries[i].owner = o /\ sl.entries[i].data = id
-          THEN UNCHANGED sl /\ last' = Rec("listappend", t, o, d.id, "exists")
-     ELSE IF Len(sl.entries) > 0 /\ sl.size # n + GuidLen
-          THEN UNCHANGED sl /\ last' = Rec("listappend", t, o, d.id, "error")     \* mixed sizes cannot satisfy ListEq
-     ELSE sl' = AddTo(sl, o, id, n) /\ last' = Rec("listappend", t, o, d.id, "ok")
-DoListRemove(o, d) ==
-  /\ sl.type # "none" /\ d.types \cap {sl.type} # {} /\ UNCHANGED db
-  /\ LET ks == {k \in 1..Len(sl.entries) : sl.entries[k].owner = o /\ sl.entries[k].data = d.id} IN
-     IF ks = {} THEN UNCHANGED sl /\ last' = Rec("listremove", sl.type, o, d.id, "notfound")
-     ELSE LET k == CHOOSE x \in ks : \A y \in ks : x <= y IN
-          /\ sl' = (IF Len(sl.entries) = 1 THEN NewList(sl.type) ELSE DropAt(sl, k))
-          /\ last' = Rec("listremove", sl.type, o, d.id, "ok")
-DoAppendList == /\ sl.type # "none" /\ Len(sl.entries) > 0
-                /\ db' = Append(db, sl) /\ sl' = NoList /\ last' = Rec("appendlist", "-", "-", "-", "ok")
-
-AllDecodable(d) == \A i \in 1..Len(d) : d[i].type \in Decodable
-DoRecode == /\ UNCHANGED <<db, sl>>
-            /\ last' = Rec("recode", "-", "-", "-", IF AllDecodable(db) THEN "ok" ELSE "may")
-
-Init == db = <<>> /\ sl = NoList /\ last = Rec("init", "-", "-", "-", "ok")
-Next == \/ \E o \in Owners, d \in Data : \E t \in d.types : DoAppend(t, o, d) \/ DoRemove(t, o, d) \/ DoQuery(t, o, d)
-        \/ \E t \in ValidSchemes : DoListNew(t)
-        \/ \E o \in Owners, d \in Data : DoListAppend(o, d) \/ DoListRemove(o, d)
-        \/ DoAppendList \/ DoRecode
-Spec == Init /\ [][Next]_vars
+FlatAgrees == \A o \in Owners, d \in Data : \A t \in d.types : InFlatIsMembership(db, t, o, d.id)
 
 (* ---- C09 as invariants / action properties of the design ---- *)
-WellFormed  == WF(db) /\ NoEmptyList(db) /\ (sl.type # "none" => ListWF(sl))
 (* no duplicate in the flat view unless it was brought in by append-list *)
 OthersKept == [][ \/ Flat(db') = Flat(db)
                   \/ \E p \in 1..Len(Flat(db')) : Flat(db) = Without(Flat(db'), p)
                   \/ \E p \in 1..Len(Flat(db))  : Flat(db') = Without(Flat(db), p)
                   \/ last'.op = "appendlist" ]_vars
-ErrorsChangeNothing == [][ last'.res \notin {"ok", "true", "false", "may"} => db' = db /\ sl' = sl ]_vars
 AppendAddsOne == [][ last'.op = "append" /\ last'.res = "ok" =>
                        /\ Len(Flat(db')) = Len(Flat(db)) + 1
                        /\ ~InFlat(db, last'.t, last'.o, NormId(last'.t, CHOOSE d \in Data : d.id = last'.d))
